@@ -21,7 +21,7 @@ RULE = (
     "adversarial texts (NUL, lone surrogates in code / comment / string / library module, BOM, CRLF, tabs, 3000 nested operators, "
     "400-digit integer, 1e999, break/continue/return/yield at top level, Lua-looking text, directives naming dunder attributes, "
     "module maps with broken library modules, unsupported constructs); every option field set to each of {True, False, None, 0, 1, "
-    "'yes'}; and the constexpr fault set {raises, prints, returns a non-JSON value, returns NaN, loops forever, recursion, "
+    "'yes'}; 8 recursive programs x all 32 behaviour option vectors (each must be an error verdict); a scaling set (17 statement kinds repeated 1..24 times, 4 constructs nested to depth 12: compile time must stay inside the bound); and the constexpr fault set {raises, prints, returns a non-JSON value, returns NaN, loops forever, recursion, "
     "sys.exit, huge output, open/eval/exec} x {main code, function body, library module}.  Oracle per call: no exception escapes; "
     "the result is a dict with exactly one of 'code' (a str, with integer num_lines/num_bytes/num_registers consistent with it) or "
     "'error' (a dict with a str description; if a position is given then 1 <= line <= number of lines of the submitted text + 1 and "
@@ -161,18 +161,23 @@ def mutations(seed, tier):
 
 
 def run_case(case):
+    import warnings
+
+    warnings.filterwarnings("ignore", category=SyntaxWarning)  # CPython's own warnings about the faulted texts
     out = {"key": case["key"], "family": case["family"], "symptom": None, "detail": None}
     n = 0
     classes = set()
     if case["family"] == "SEED":
         it = ((tag, txt, None, comp.DEFAULTS) for tag, txt in mutations(case["seed"], case["tier"]))
     else:
-        it = ((i, s, None, o) for i, (s, o) in enumerate(case["items"]))
+        it = ((i, x[0], x[2] if len(x) > 2 else None, x[1]) for i, x in enumerate(case["items"]))
     libs = case.get("modules")
-    for tag, txt, _, opts in it:
+    for tag, txt, expect, opts in it:
         src = dict(libs, **{"": txt}) if libs else txt
         n += 1
         sym, desc, cls = judge(src, opts)
+        if sym is None and expect == "error" and not cls.startswith("error"):
+            sym, desc = "must-be-reported-as-error", f"verdict class {cls!r}: a program of this kind (recursion) has to be rejected with an error"
         classes.add(cls)
         if sym and out["symptom"] is None:
             out["symptom"] = sym
@@ -241,6 +246,62 @@ def constexpr_faults():
     return C
 
 
+def scaling():
+    """REPEAT: one statement kind repeated n times (n = 1, 2, 4, ..., 24).  compile time must stay bounded (a construct whose
+    cost doubles per repetition exceeds the 10 s CPU bound long before n = 24)."""
+    kinds = {
+        "assign": "v{i} = d0.Setting\ndb.On = v{i}\n",
+        "reassign": "v = d0.Setting + {i}\ndb.On = v\n",
+        "batch-read": "db.Setting = Batteries.Charge.Maximum + {i}\n",
+        "named-batch": 'db.Setting = Batteries["B{i}"].Charge.Sum\n',
+        "named-batch-var": 'hv = HASH("B{i}")\nGrowLights[hv].On = {i}\ndb.Lock = Batteries[hv].Charge.Maximum\n',
+        "named-batch-const": 'hc{i} = HASH("B{i}")\nGrowLights[hc{i}].On = {i}\ndb.Lock = Batteries[hc{i}].Charge.Minimum\n',
+        "slot": "db.Setting = ArcFurnace(d0).slot0.Quantity + {i}\nArcFurnaces.Import.Occupied = {i}\n",
+        "refid": "rid = d0.ReferenceId\nst = Stack(ref_id=rid)\nst[{i}] = {i}\n",
+        "struct": "gs{i} = GasSensor(d{j})\ndb.Setting = gs{i}.Pressure\n",
+        "if": "if d0.Setting > {i}:\n    db.On = {i}\nelse:\n    db.On = 0\n",
+        "for": "for q{i} in range({i} + 1):\n    db.On = q{i}\n",
+        "forlist": "for w{i} in [1, 2, {i}]:\n    db.On = w{i}\n",
+        "list": "db.Setting = [1, 2, 3, 4, 5, 6, 7][d0.Setting] + {i}\n",
+        "call": "db.Setting = f({i}) + f(d0.Setting)\n",
+        "ternary": "db.Setting = {i} if d0.Setting > {i} else d1.Setting\n",
+        "boolop": "db.On = d0.Setting > {i} and d1.Setting < {i} or d2.Setting == {i}\n",
+        "math": "db.Setting = sqrt(d0.Setting) + sin({i}) + max(d1.Setting, {i})\n",
+    }
+    out = []
+    for name, t in kinds.items():
+        items = []
+        for n in (1, 2, 4, 8, 12, 16, 24):
+            body = "".join(t.format(i=i, j=i % 6) for i in range(n))
+            src = ("def f(a):\n    db.Mode = a\n    return a + 1\n" if name == "call" else "") + body
+            items.append((src, dict(comp.DEFAULTS)))
+            items.append((src, dict(comp.DEFAULTS, inline_functions=False, compact=True, remove_labels=True)))
+        out.append((name, items))
+    # nesting depth instead of repetition
+    for name, mk_ in (("nested-if", lambda d: "".join("    " * k + f"if d0.Setting > {k}:\n" for k in range(d)) + "    " * d + "db.On = 1\n"),
+                      ("nested-for", lambda d: "".join("    " * k + f"for i{k} in range(2):\n" for k in range(d)) + "    " * d + "db.On = 1\n"),
+                      ("nested-call", lambda d: "".join(f"def f{k}(a):\n    return " + (f"f{k - 1}(a + 1) + f{k - 1}(a)" if k else "a") + "\n" for k in range(d)) + f"db.Setting = f{d - 1}(d0.Setting)\n"),
+                      ("nested-expr", lambda d: "db.Setting = " + "(" * d + "d0.Setting" + "".join(f" + {k})" for k in range(d)) + "\n")):
+        items = [(mk_(d), dict(comp.DEFAULTS)) for d in (1, 2, 4, 6, 8, 10, 12)]
+        out.append((name, items))
+    return out
+
+
+def recursion_set():
+    """Recursive programs (direct, mutual, via three functions, in tail and non-tail position) x all 32 behaviour option vectors:
+    every one must be reported as an error."""
+    import itertools as _it
+
+    progs = [c["src"] for c in F.func_cyclic()] + [
+        "def f(n):\n    if n > 0:\n        f(n - 1)\nwhile True:\n    f(d0.Setting)\n    f(2)\n    yield_()\n",
+        "def f(n):\n    db.On = n\n    f(n + 1)\nf(0)\n",
+        "def f(n):\n    if n > 0:\n        return n * f(n - 1)\n    return 1\ndb.Setting = f(d0.Setting)\n",
+        "def f(n):\n    return g(n)\ndef g(n):\n    return f(n)\ndb.Setting = f(1)\ndb.On = g(2)\n",
+    ]
+    vs = [dict(zip(comp.BEHAVIOUR_OPTS, v)) for v in _it.product([False, True], repeat=5)]
+    return [(p, dict(comp.DEFAULTS, **v), "error") for p in progs for v in vs]
+
+
 def seeds(tier):
     S = []
     for p in corpus.programs("quick"):
@@ -265,6 +326,11 @@ def build_cases(tier):
     A = adversarial()
     for j in range(0, len(A), 12):
         cases.append({"family": "ADVERSARIAL", "items": A[j : j + 12], "key": common.hkey("A", j, [repr(x) for x in A[j : j + 12]])})
+    R = recursion_set()
+    for j in range(0, len(R), 32):
+        cases.append({"family": "RECURSION", "items": R[j : j + 32], "key": common.hkey("REC", j, R[j][0])})
+    for name, items in scaling():
+        cases.append({"family": "REPEAT", "items": items, "key": common.hkey("R", name, [i[0] for i in items])})
     for name, src, mods in constexpr_faults():
         cases.append({"family": "CONSTEXPR-FAULT", "items": [(src, dict(comp.DEFAULTS))], "modules": mods, "key": common.hkey("C", name, src, mods), "name": name})
     return cases
